@@ -2107,4 +2107,29 @@ theorem steps_keys {cfg : Cfg} {w w' : World} (h : Steps cfg w w') :
     exact ⟨by rw [hs.2.2]; exact ih.1, fun k hk hu => ih.2 k hk (used_of_sub hs.1 hs.2.1 hu)⟩
   | @restamp wm f _ ih => exact ⟨ih.1, fun k hk hu => ih.2 k hk (used_restamp f wm k hu)⟩
 
+/-- a change record never names a version that existed before its transaction: its version id is fresh -/
+theorem tx1_rows_fresh {cfg : Cfg} {w w1 : World} {o : Op} {chs : List Change} (ht : tx1 cfg w o = .ok (w1, chs)) :
+    ∀ ch ∈ chs, w.next ≤ ch.row := by
+  by_cases hcr : ∃ s, o = .create s
+  · rcases hcr with ⟨s, rfl⟩
+    rcases tx1Create_ok (show tx1Create cfg w s = .ok (w1, chs) from ht) with ⟨_, _, _, _, hchs, _⟩
+    rw [hchs]
+    intro ch hch
+    rcases List.mem_map.1 hch with ⟨m, _, rfl⟩
+    simp only [createdChange]; omega
+  · have hnc : ∀ s, o ≠ .create s := fun s he => hcr ⟨s, he⟩
+    rw [tx1_is_update cfg w o hnc] at ht
+    rcases tx1Update_ok ht with ⟨_, _, _, _, hchs⟩
+    rw [hchs]
+    intro ch hch
+    rcases List.mem_filterMap.1 hch with ⟨r, _, hc⟩
+    unfold changeOf at hc
+    cases hnc' : newContent o w.next r with
+    | none => rw [hnc'] at hc; cases hc
+    | some c =>
+      rw [hnc'] at hc
+      simp only [Option.map_some, Option.some.injEq] at hc
+      subst hc
+      simp only; omega
+
 end Nuts.C13
